@@ -102,6 +102,10 @@ def run_cfg(ctx, fx):
     check_child_table_access(ctx, fx)
     check_child_store(ctx, fx)
     check_registration_unconditional(ctx, fx)
+    # R16.8 (shared with C15) "delivers the message exactly once to every child registered under that message type": the broadcast
+    # goes through the forcing half, which refuses a message only when the child's mailbox is closed — never because it is full
+    from props.c15 import check_forcing_never_refuses
+    core.shared(ctx, "R16.8", check_forcing_never_refuses, ctx, fx, fx.cfg, "R16.8")
     check_rest(ctx, fx)
 
 
